@@ -158,4 +158,75 @@ example : isOngoing demo.comp 5000 = false ∧ (onExecuted demo 1 5000 3 0 2 tru
 -- `extension_never_past` / `end_time_step`: the lower-bound hypothesis on the stored end time
 example : I64MIN ≤ demo.comp.end_ := by decide
 
+/-! ### participant accounts cannot be closed while the competition is ongoing -/
+
+/-- **No participant can be closed while the competition is ongoing** — with the end time INCLUSIVE, exactly the window
+in which `on_executed` still counts trades (`isOngoing`). -/
+theorem close_rejected_while_ongoing (s : St) (t : Nat) (now : Int) (h : isOngoing s.comp now = true) :
+    close s t now = none := by
+  unfold isOngoing at h
+  simp only [Bool.and_eq_true, decide_eq_true_eq] at h
+  unfold close
+  have : ¬ (now < s.comp.start ∨ now > s.comp.end_) := by omega
+  simp [this]
+
+/-- the two time windows are complementary: a close passes the time guard exactly when trades are no longer (or not
+yet) counted. -/
+theorem close_guard_iff_not_ongoing (s : St) (t : Nat) (now : Int) (p : Part) (hp : s.parts t = some p) :
+    (close s t now).isSome = true ↔ isOngoing s.comp now = false := by
+  unfold close isOngoing
+  by_cases h : now < s.comp.start ∨ now > s.comp.end_
+  · simp [h, hp]
+    omega
+  · simp [h]
+    omega
+
+/-- a successful close: outside the competition window, of an existing account; it removes that trader's volume record
+and nothing else — the competition account (board, end time) is untouched. -/
+theorem close_spec {s s' : St} {t : Nat} {now : Int} (h : close s t now = some s') :
+    isOngoing s.comp now = false ∧ (s.parts t).isSome = true ∧ s'.parts t = none ∧ s'.comp = s.comp ∧
+    ∀ u, u ≠ t → s'.parts u = s.parts u := by
+  unfold close at h
+  split at h; · cases h
+  rename_i hg
+  cases hp : s.parts t with
+  | none => simp [hp] at h
+  | some p =>
+    simp [hp] at h
+    subst h
+    refine ⟨?_, rfl, by simp, rfl, fun u hu => by simp [hu]⟩
+    unfold isOngoing
+    have : now < s.comp.start ∨ now > s.comp.end_ := Classical.byContradiction (fun hn => hg hn)
+    simp; omega
+
+/-- **Hence volumes are never reset during the competition**: along any history (creations, trades, close attempts)
+whose instructions all run while the competition is ongoing, every close is rejected, the board invariant
+(≤ 5 entries, distinct, sorted, latest volumes, everyone off a full board dominated by its last entry) holds at the end
+and no participant's volume ever decreases. -/
+theorem ongoing_history_keeps_board (ops : List Op2) (s : St) (hI : Inv s) (ho : OngoingHist s ops) :
+    Inv (run2 s ops) ∧ ∀ u, volOf s u ≤ volOf (run2 s ops) u := by
+  induction ops generalizing s with
+  | nil => exact ⟨hI, fun _ => Nat.le_refl _⟩
+  | cons o rest ih =>
+    obtain ⟨hon, hrest⟩ := ho
+    have hstep : Inv (step2 s o) ∧ ∀ u, volOf s u ≤ volOf (step2 s o) u := by
+      cases o with
+      | op o' => exact ⟨inv_step hI o', fun u => volume_nondecreasing hI o' u⟩
+      | close t now =>
+        have : close s t now = none := close_rejected_while_ongoing s t now hon
+        simp only [step2, this, Option.getD]
+        exact ⟨hI, fun _ => Nat.le_refl _⟩
+    obtain ⟨h1, h2⟩ := ih (step2 s o) hstep.1 hrest
+    exact ⟨h1, fun u => Nat.le_trans (hstep.2 u) (h2 u)⟩
+
+/-- non-vacuity and sharpness: at `now = end` a close is rejected and a trade is still counted; at `end + 1` the close
+succeeds; the seeded history (close at `end`, re-create, small trade) therefore cannot reset a listed volume. -/
+example : let s := run (init 100 200 1000000 10 20 false 5) [.create 0 100, .trade 0 150 3 0 2 true (some (0, 0, 50))]
+    close s 0 200 = none ∧ (close s 0 201).isSome = true ∧ (close s 0 99).isSome = true ∧
+    volOf ((onExecuted s 0 200 3 0 2 true (some (0, 50, 57))).getD s) 0 = 57 ∧
+    volOf (run2 s [.close 0 200, .op (.create 0 200), .op (.trade 0 200 3 0 2 true (some (0, 0, 7)))]) 0 = 57 := by decide
+example : OngoingHist (init 100 200 1000000 10 20 false 5)
+    [.op (.create 0 100), .op (.trade 0 150 3 0 2 true (some (0, 0, 50))), .close 0 200] := by
+  refine ⟨by decide, by decide, by decide, trivial⟩
+
 end Gmx.C39
